@@ -330,6 +330,38 @@ impl<'a> Read for LazyReader<'a> {
     }
 }
 
+/// A reader that, inside `read`, after storing its bytes in the caller's buffer, runs ANOTHER complete
+/// YAML translation on the same thread (a reader that decodes, decrypts or fetches through code that
+/// itself uses xt), and then checks that the buffer it was lent still holds what it stored. A `&mut [u8]`
+/// is exclusive for the duration of the call: if the bytes changed, two parsers share memory.
+pub struct NestingReader<'a> {
+    pub data: &'a [u8],
+    pub pos: usize,
+    pub max_read: usize,
+    pub inner: &'a [u8],
+    pub nest_on_call: u64,
+    pub calls: u64,
+    pub clobbered: Rc<RefCell<u64>>,
+}
+
+impl<'a> Read for NestingReader<'a> {
+    fn read(&mut self, buf: &mut [u8]) -> io::Result<usize> {
+        let n = buf.len().min(self.max_read.max(1)).min(self.data.len() - self.pos);
+        buf[..n].copy_from_slice(&self.data[self.pos..self.pos + n]);
+        let call = self.calls;
+        self.calls += 1;
+        if call >= self.nest_on_call && call < self.nest_on_call + 3 {
+            let mut sink = Vec::new();
+            let _ = xt::translate_reader(SchedReader::new(self.inner, Sched::Fixed(4096)), Some(xt::Format::Yaml), xt::Format::Json, &mut sink);
+            if buf[..n] != self.data[self.pos..self.pos + n] {
+                *self.clobbered.borrow_mut() += 1;
+            }
+        }
+        self.pos += n;
+        Ok(n)
+    }
+}
+
 /// A reader with a hostile life cycle: it can panic inside `read` on a chosen
 /// call, and it can panic in its destructor (only when no panic is already in
 /// flight, so that the process never aborts on a double panic). Reads are
